@@ -151,8 +151,19 @@ def ref_depth(x, seen=None):
     return 0
 
 
+def _limits(tier):
+    return LIMITS if tier != "thorough" else [None, 1, 2, 3, 4, 5, 6, 7]
+
+
+def _max_input_depth(tier):
+    return 6 if tier != "thorough" else 10
+
+
 def bounds(tier):
-    return dict(declarations=list(DECLS), limits=LIMITS, max_input_depth=6, cost_depths=8, cost_widths=3)
+    return dict(declarations=list(DECLS), limits=_limits(tier), max_input_depth=_max_input_depth(tier),
+                cost_declarations=list(COST_DECLS), cost_option_sets=list(COST_OPTS),
+                cost_chain_depth=12 if tier != "thorough" else 20, cost_tree_depth=8 if tier != "thorough" else 10,
+                cost_widths=3 if tier != "thorough" else 4, cyclic_limits="2..12" if tier != "thorough" else "2..20")
 
 
 def shards(tier):
@@ -170,7 +181,8 @@ def run_shard(shard, tier):
 
 def _depth(acc, dname, tier):
     tmpl, root, how = DECLS[dname]
-    for limit in LIMITS:
+    maxd = _max_input_depth(tier)
+    for limit in _limits(tier):
         opt = f"    __options__ = Options(max_depth={limit})\n" if limit else ""
         src = tmpl.format(opt=opt)
         mod = load(src)
@@ -181,13 +193,13 @@ def _depth(acc, dname, tier):
             positions = [(0, "k"), (1, "k"), (2, "k")]
         elif how == "kids{}":
             positions = [(0, "k"), (0, ""), (0, "0"), (1, "k")]
-        for depth in range(1, 7):
+        for depth in range(1, maxd + 1):
             for index, key in positions:
                 cases.append((f"depth={depth},index={index},key={key!r}", build_input(how, depth, index, key)))
         # the nested value wrapped in a one-element list / tuple at every level (the documented query-string shape):
         # the wrapper is not a data class and must not change the count
         for wrap in ("list", "tuple"):
-            for depth in range(2, 7):
+            for depth in range(2, maxd + 1):
                 cases.append((f"depth={depth},index=0,key='k',wrap={wrap!r}", build_input(how, depth, 0, "k", wrap=wrap)))
         # the other union branch / a scalar at the nested position
         if how == "nxt" and dname != "plain-default":
@@ -227,7 +239,10 @@ def _depth(acc, dname, tier):
             acc.states += 1
             acc.transitions += 1
             want = ref_depth(data)
-            st, r = call_guarded(lambda: parse(cls, data), wall_s=3.0, step_budget=1_500_000)
+            # a rejection deep down a chain of unions costs 3^depth attempts (the recorded C18 cost finding): the step
+            # budget of the termination guard is sized so that limit 7 still finishes
+            st, r = call_guarded(lambda: parse(cls, data), wall_s=3.0 if tier != "thorough" else 20.0,
+                                 step_budget=1_500_000 if tier != "thorough" else 40_000_000)
             acc.evaluations += 1
             got = "ok" if st == "ok" else ("perr" if isinstance(r, uexc.ParseError) else
                                            "recursion" if isinstance(r, RecursionError) else f"other:{type(r).__name__ if st == 'exc' else st}")
@@ -370,14 +385,16 @@ def _cost(acc, cname, oname, tier):
     mod = load(src)
     cls = mod.__dict__[root]
     count = mod.__dict__["COUNT"]
-    widths = [1] if how == "nxt" else [1, 2, 3]
+    thorough = tier == "thorough"
+    widths = [1] if how == "nxt" else ([1, 2, 3, 4] if thorough else [1, 2, 3])
     # width-1 chains go to depth 12: a doubling per level crosses 4 n^2 + 8 only at depth 10
-    maxdepth = 12
+    maxdepth = 20 if thorough else 12
+    maxnodes = 1500 if thorough else 400
     for family, leaf, bottom in (("valid", 1, 1), ("lenient-only", "2", "2"), ("invalid-bottom-leaf", 1, "bad")):
         for width in widths:
             prev_w = None
             for depth in range(1, maxdepth + 1):
-                if width ** depth > 400:
+                if width ** depth > maxnodes or (width > 1 and depth > (10 if thorough else 8)):
                     continue
                 data, n = cost_input(how, depth, width, leaf, bottom)
                 boom, w = _judge_cost(acc, cname, oname, family, f"depth={depth} width={width}", cls, count, data, n, prev_w, [
@@ -391,7 +408,7 @@ def _cost(acc, cname, oname, tier):
     unload(mod)
     # a self-containing input cut off by max_depth = d: the work must stay polynomial in d
     prev_w = None
-    for d in range(2, 13):
+    for d in range(2, 21 if thorough else 13):
         src = LEAF_SRC + tmpl.format(opt=_opt_line(dict(opts, max_depth=d)))
         mod = load(src)
         cls = mod.__dict__[root]
@@ -402,7 +419,7 @@ def _cost(acc, cname, oname, tier):
         if boom:
             break
         prev_w = w
-        if d == 12:
+        if d == (20 if thorough else 12):
             acc.sample(dict(declaration=cname, options=oname, family="cyclic-cut-by-limit", max_depth=d, leaf_conversions=w))
 
 
